@@ -189,7 +189,6 @@ class UuidSeam(object):
 
 
 def install_seams():
-    import qstrader.execution.order as order_mod
     mods = [m for n, m in sorted(sys.modules.items()) if n.startswith('qstrader') and m is not None]
     saved = []
     for m in mods:
@@ -197,8 +196,19 @@ def install_seams():
         m.__dict__['set'] = ChoiceSet
         m.__dict__['frozenset'] = ChoiceSet
     seam = UuidSeam()
-    saved_uuid = order_mod.uuid
-    order_mod.uuid = seam
+    # wherever a qstrader module draws random identifiers from the uuid module (today: execution/order.py), the
+    # draw becomes an answer of the explorer.  A library that takes its ids from somewhere deterministic has no
+    # such source of nondeterminism to own, and nothing is patched.
+    import uuid as _uuid_mod
+    saved_ids = []
+    for m in mods:
+        if m.__dict__.get('uuid') is _uuid_mod:
+            saved_ids.append((m, 'uuid', _uuid_mod))
+            m.__dict__['uuid'] = seam
+        if m.__dict__.get('uuid4') is _uuid_mod.uuid4:
+            saved_ids.append((m, 'uuid4', _uuid_mod.uuid4))
+            m.__dict__['uuid4'] = seam.uuid4
+    seam.sites = len(saved_ids)
 
     def restore():
         for m, s, f in saved:
@@ -207,7 +217,8 @@ def install_seams():
                     m.__dict__.pop(name, None)
                 else:
                     m.__dict__[name] = old
-        order_mod.uuid = saved_uuid
+        for m, name, old in saved_ids:
+            m.__dict__[name] = old
     return seam, restore, len(mods)
 
 
